@@ -1,3 +1,61 @@
-From TM Require Import Base Frame.
-Theorem C05_placeholder : fc_value (fc_new 1) = 1.
-Proof. reflexivity. Qed.
+(* C05 -- Modbus TCP framing reassembles exact frames and rejects invalid MBAP headers.
+   [valid_req_frame f i]: f = MBAP header (tid, protocol 0, length = |pdu|+1, unit) ++ pdu with
+   1 <= |pdu| <= 65534 and the PDU decodes to the item's request ([valid_rsp_frame] likewise).
+   [take_items dec n st evs] performs n successive [next]s and returns the n items. *)
+From Coq Require Import Lia.
+From TM Require Import Base Frame Pdu RtuCodec TcpCodec Framed FramedProofs TcpProofs StreamProofs.
+
+(* any concatenation of well-formed frames, under EVERY composition into non-empty read chunks, is
+   delivered frame by frame, each once, in order, header and PDU intact; nothing is left over *)
+Theorem C05_server_reassembly : forall fs is cs,
+  Forall2 valid_req_frame fs is -> Forall nonempty cs -> concat cs = concat fs ->
+  exists st' cs', take_items tcp_server_dec (length fs) rstate0 (datas cs) = Some (is, st', datas cs')
+                  /\ rbuf st' ++ concat cs' = [].
+Proof. exact tcp_server_stream. Qed.
+Theorem C05_client_reassembly : forall fs is cs,
+  Forall2 valid_rsp_frame fs is -> Forall nonempty cs -> concat cs = concat fs ->
+  exists st' cs', take_items tcp_client_dec (length fs) rstate0 (datas cs) = Some (is, st', datas cs')
+                  /\ rbuf st' ++ concat cs' = [].
+Proof. exact tcp_client_stream. Qed.
+
+(* the item of a frame followed by ANY bytes is delivered leaving exactly those bytes: nothing is
+   taken from the next frame *)
+Theorem C05_nothing_from_next_frame : forall f i x, valid_req_frame f i -> tcp_server_dec (f ++ x) = (x, DSome i).
+Proof. exact tcp_server_H1. Qed.
+
+(* while a frame is incomplete nothing is delivered and the bytes stay buffered *)
+Theorem C05_nothing_early_server : forall cs b rd f i,
+  valid_req_frame f i -> Forall nonempty cs -> proper_prefix (b ++ concat cs) f ->
+  exists st', next tcp_server_dec (mkR b false rd false) (datas cs) None = (NWait, st', [], None) /\ rbuf st' = b ++ concat cs.
+Proof. exact tcp_server_nothing_early. Qed.
+Theorem C05_nothing_early_client : forall cs b rd f i,
+  valid_rsp_frame f i -> Forall nonempty cs -> proper_prefix (b ++ concat cs) f ->
+  exists st', next tcp_client_dec (mkR b false rd false) (datas cs) None = (NWait, st', [], None) /\ rbuf st' = b ++ concat cs.
+Proof. exact tcp_client_nothing_early. Qed.
+
+(* invalid headers: a zero length field is an error as soon as the header is there; a non-zero
+   protocol identifier never yields an item and is an error once the announced frame is complete *)
+Theorem C05_zero_length : forall t1 t2 p1 p2 uid rest,
+  adu_decode (t1 :: t2 :: p1 :: p2 :: 0 :: 0 :: uid :: rest) = (t1 :: t2 :: p1 :: p2 :: 0 :: 0 :: uid :: rest, DErr KInvalidData).
+Proof. exact adu_decode_len0. Qed.
+Theorem C05_bad_protocol_never_item : forall t1 t2 p1 p2 l1 l2 uid rest,
+  of_be16 p1 p2 <> 0 ->
+  forall b r, adu_decode (t1 :: t2 :: p1 :: p2 :: l1 :: l2 :: uid :: rest) = (b, r) -> forall i, r <> DSome i.
+Proof. exact adu_decode_bad_protocol. Qed.
+Theorem C05_bad_protocol_error : forall t1 t2 p1 p2 l1 l2 uid rest,
+  of_be16 p1 p2 <> 0 -> of_be16 l1 l2 <> 0 -> 7 + (of_be16 l1 l2 - 1) <= 7 + len rest ->
+  adu_decode (t1 :: t2 :: p1 :: p2 :: l1 :: l2 :: uid :: rest) = (rest, DErr KInvalidData).
+Proof. exact adu_decode_bad_protocol_complete. Qed.
+
+(* every frame the client transmits: protocol identifier 0, length field = PDU length + 1 (never
+   truncated: PDU <= 253), unit id, PDU *)
+Theorem C05_emitted_request_frame : forall m h r bs, fst h < 65536 -> tcp_client_enc m h r = Val bs ->
+  exists pdu, enc_req m r = Val pdu /\ len pdu <= 253 /\ bs = tcp_frame (fst h) (snd h) pdu.
+Proof. exact tcp_client_enc_shape. Qed.
+Theorem C05_frame_layout : forall tid uid pdu,
+  tcp_frame tid uid pdu = hi8 tid :: lo8 tid :: 0 :: 0 :: hi8 (len pdu + 1) :: lo8 (len pdu + 1) :: uid :: pdu.
+Proof. exact tcp_frame_shape. Qed.
+
+(* non-vacuity *)
+Example C05_ex : valid_req_frame [0x12; 0x34; 0; 0; 0; 2; 0x56; 0x11] ((0x1234, 0x56), ReqReportServerId).
+Proof. exists 0x1234, 0x56, [0x11]. unfold hdr_ok. repeat split; cbn; lia. Qed.
